@@ -368,3 +368,67 @@ def run():
 def replay(path):
     print(open(path).read()[:8000])
     return 0
+
+
+# ------------------------------------------------------------------------------------------------
+# containers
+# ------------------------------------------------------------------------------------------------
+KINDS = {
+    # kind: (keys for MC, M for MC, keys for Gen/Trace, M)
+    "set": ("{0, 1, 2}", 3, "{" + ", ".join(map(str, range(16))) + "}", 16),
+}
+
+
+def adt_cfg(sc, kind, mode, depth=0, maxver=2, klen=None):
+    mck, mcm, gk, gm = KINDS[kind]
+    f = sc.file("Adt_%s_%s_%d.cfg" % (mode, kind, depth))
+    with open(f, "w") as fh:
+        if mode == "MC":
+            fh.write("SPECIFICATION Spec\nCONSTANTS Kind = \"%s\"\n Keys = %s\n M = %d\n MaxVer = %d\n KLen = %d\n GenDepth = 0\n"
+                     "CONSTRAINT Bounded\nINVARIANTS TypeInv LawInv CanonInv LiveInv\nPROPERTIES Persist\nCHECK_DEADLOCK FALSE\n"
+                     % (kind, mck, mcm, maxver, 1 if klen is None else klen))
+        elif mode == "Gen":
+            fh.write("SPECIFICATION GenSpec\nCONSTANTS Kind = \"%s\"\n Keys = %s\n M = %d\n MaxVer = 0\n KLen = %d\n GenDepth = %d\n"
+                     "INVARIANTS Dump\nCHECK_DEADLOCK FALSE\n" % (kind, gk, gm, 4 if klen is None else klen, depth))
+        else:
+            fh.write("SPECIFICATION TraceSpec\nCONSTANTS Kind = \"%s\"\n Keys = %s\n M = %d\n MaxVer = 0\n KLen = 4\n GenDepth = 0\n"
+                     "POSTCONDITION Accepted\nCHECK_DEADLOCK FALSE\n" % (kind, gk, gm))
+    return f
+
+
+def adt_gen(sc, kind, num, depth, seed):
+    """histories generated by TLC -simulate from Adt.tla; + a final peek of every live version"""
+    r = vlib.run_tlc("Adt.tla", adt_cfg(sc, kind, "Gen", depth), sc.path, workers=1, simulate=num, depth=depth, seed=seed,
+                     timeout=600, heap="2g")
+    vlib.require_tlc_ok(r, "AdtGen %s" % kind)
+    hs = []
+    for h in tlc_hists(r):
+        ops = h["h"] + [dict(op="peek", v=v, w=0, k=0, x=0, ks=[]) for v in h["live"]]
+        hs.append(ops)
+    if len(hs) != num:
+        raise Broken("AdtGen %s: %d histories instead of %d" % (kind, len(hs), num))
+    return hs
+
+
+def hist_sexp(ops, offset=0):
+    return "(%d %s)" % (offset, " ".join('("%s" %d %d %d %d (%s))' % (o["op"], o["v"], o["w"], o["k"], o["x"], " ".join(map(str, o["ks"])))
+                                         for o in ops))
+
+
+def adt_run(build, sc, kind, idx, hists, offsets=None):
+    f = sc.file("hist_%s_%d.scm" % (kind, idx))
+    with open(f, "w") as fh:
+        for i, h in enumerate(hists):
+            fh.write(hist_sexp(h, offsets[i] if offsets else 0) + "\n")
+    p = build.run([ADTDRV, kind, str(KINDS[kind][3]), f], timeout=900)
+    t = sc.file("adttrace_%s_%d.ndjson" % (kind, idx))
+    with open(t, "wb") as fh:
+        fh.write(p.stdout)
+        fh.write(b'{"e":"End"}\n')
+    if p.returncode != 0:
+        raise Broken("adt driver (%s) failed rc=%s: %s" % (kind, p.returncode, p.stderr.decode(errors="replace")[-800:]))
+    return t
+
+
+def adt_validate(sc, kind, trace, to=900):
+    return vlib.run_tlc("AdtTrace.tla", adt_cfg(sc, kind, "Trace"), sc.path, env={"TRACE": trace}, workers=1, timeout=to, heap="3g")
